@@ -237,6 +237,12 @@ func Main(args []string) int {
 			stNode := d.log.Add(d.root, run, "State", map[string]interface{}{"name": sb.name, "notes": w.notes, "params": p},
 				nil, map[string]interface{}{"digest": w.Digest(), "h": w.Height})
 			d.stats["states"]++
+			for i, hr := range w.hist {
+				d.log.Add(stNode, run, "Block", map[string]interface{}{"state": d.state, "n": -(i + 1), "dt": 0, "h": 0, "hist": hr.What},
+					map[string]interface{}{"returned": hr.Returned, "panicS": hr.PanicS, "panicK": panicKind(hr.PanicS)},
+					map[string]interface{}{"digest": ""})
+				d.stats["histSteps"]++
+			}
 			for _, hn := range hooks {
 				d.hookCases(w, stNode, run, hookByName(hn))
 			}
